@@ -1310,6 +1310,10 @@ def gen_wsess(rng, maxlen):
 
 def gen_qseq(rng, maxlen):
     ops = ['new']
+    if rng.random() < 0.2:
+        # the counters are uint32_t: start the session 1..6 objects before the wrap-around (empty queue: both counters equal)
+        x = 2 ** 32 - rng.randrange(1, 7)
+        ops.append('pos:%d:%d' % (x, x))
     if rng.random() < 0.8:
         ops.append('sbs:%d' % rng.randrange(1, 4))
     n = rng.randrange(2, maxlen + 1)
@@ -1568,14 +1572,16 @@ def check_C16(res):
             monitor_sessions(res, sexe, random.Random(lib.seed() * 31 + 5), 'q')
     nseq = 2000 if res.tier == 'quick' else 40000
     runs = monitor_corr(pipe, res, 'q', nseq, 40)
+    res.corr['wrap_sessions'] = sum(1 for ops, ans in runs if any(o.startswith('pos:') for o in ops))
+    res.corr['wrap_sessions_counter_wrapped'] = sum(1 for ops, ans in runs if any(o.startswith('pos:') for o in ops) and any(' tg=0 ' in pa or ' tp=0 ' in pa for pa in ans.split(' | ')[2:]))
     res.corr['programs'] = 1
-    res.corr['rule'] = 'single-threaded operation sequences up to length 40 over {write, read, setFileSize, setBufferSize, abort} with capacities 1..4; an operation the model says blocks is issued on a helper thread and must be observed blocked'
+    res.corr['rule'] = 'single-threaded operation sequences up to length 40 over {write, read, setFileSize, setBufferSize, abort} with capacities 1..4, one session in five started 1..6 objects before the 2^32 wrap-around of the two counters (preset through the private members; the driver runs the uint32_t machine Queue.step32); an operation the model says blocks is issued on a helper thread and must be observed blocked'
     # property oracle on the implementation, back-pressure and end of stream: a reference bounded queue written down here (not the
     # Lean model): a writer is held back exactly while the queue is at its configured capacity (and not aborted), a reader exactly
     # while the queue is empty, not aborted and the declared number of objects has not been read yet
     for ops, ans in runs:
         parts = ans[5:].split(' | ')
-        n, cap, fsz, tg, ab = 0, 2 ** 32 - 1, 2 ** 32 - 1, 0, False
+        n, cap, fsz, tg, ab, tp = 0, 2 ** 32 - 1, 2 ** 32 - 1, 0, False, 0
         for op, pa in zip(ops, parts):
             a = op.split(':')
             k = a[0][6:] if a[0].startswith('probe-') else a[0]
@@ -1589,6 +1595,11 @@ def check_C16(res):
                 if blocked:
                     break
                 n += 1
+                tp = (tp + 1) % 2 ** 32      # the declared size follows the put counter (32 bit) when that passes it
+                if tp > fsz:
+                    fsz = tp
+            elif k == 'pos':
+                tg, tp = int(a[1]) % 2 ** 32, int(a[2]) % 2 ** 32
             elif k == 'r':
                 should = (not ab) and n == 0 and tg < fsz
                 if blocked != should:
@@ -1598,7 +1609,7 @@ def check_C16(res):
                 if blocked:
                     break
                 if n > 0:
-                    n -= 1; tg += 1
+                    n -= 1; tg = (tg + 1) % 2 ** 32
             elif k == 'abort':
                 ab = True
             elif k == 'sbs':
